@@ -110,7 +110,7 @@ def check(prop, tier, only):
     argv_jobs = []
     for j in jobs:
         argv = [exes[j["cfg"]]] + shlex.split(j["args"]) + ["--tier", tier]
-        if tolerate and "--conc" in j["args"]:
+        if tolerate:
             argv += ["--tolerate", ",".join(tolerate)]
         argv_jobs.append((j["name"], argv))
     results = vlib.run_jobs(argv_jobs, timeout=6 * 3600)
@@ -209,7 +209,7 @@ def check(prop, tier, only):
         for ck in ("seq-rwd", "seq-tm1"):
             c = counters[ck]
             for k in ("scopes_in_which_the_stack_grew_at_least_twice", "reacquisitions_after_initializer_destroyed",
-                      "bad_allocation_size_exceptions"):
+                      "bad_allocation_size_exceptions", "upstream_failures_injected_and_hit", "acquisitions_after_a_failed_one"):
                 if c.get(k, 0) == 0:
                     errors.append(f"vacuous: sequential part {ck} never saw '{k}'")
     wall = time.time() - t0
